@@ -258,7 +258,7 @@ def gen_scenario(rng):
             doc = "eso%d" % bi
             for gi in range(ng):
                 last = gi == ng - 1
-                benefits.append({"kind": "ESO", "sym": sym, "date": d, "released": rng.randint(5, 300), "fmv": Fraction(rng.randint(2000, 30000), 100),
+                benefits.append({"kind": "ESO", "sym": sym, "date": d, "released": rng.choice([rng.randint(5, 300), rng.randint(1000, 3000)]), "fmv": Fraction(rng.randint(2000, 30000), 100),
                                  "sold": sold if last else 0, "award": "Option Grant %d" % (award + bi * 10 + gi), "grant_num": award + bi * 10 + gi,
                                  "fee": sum(fees) if last else Fraction(0), "grant_fee": fees[gi], "sale_price": sale_price, "doc": doc,
                                  "ex_type": rng.choice(["Same-Day Sale", "Sell to Cover"]) if gi == 0 else None})
@@ -295,6 +295,11 @@ def gen_scenario(rng):
             b["sale_price"] = Fraction(int(tot / sold * 10 ** 6), 10 ** 6)
         else:
             b["sale_price"] = None
+        if kind == "ESPP" and sold and rng.random() < 0.12:
+            # a sale price of four figures is printed with a thousands separator ($1,004.250000)
+            b["price_with_comma"] = True
+            for t in own:
+                t["price"] += 1000
         benefits.append(b)
         trades += own
     # extra manual sales
@@ -357,7 +362,7 @@ def render_files(rng, sc):
                 continue
             done_docs.add(b["doc"])
             gs = [x for x in sc["benefits"] if x.get("doc") == b["doc"]]
-            grants = "".join(ESO_GRANT.format(i=i + 1, num=g["grant_num"], fmv=money2(g["fmv"]), shares=g["released"], sale_price=money2(g["sale_price"]),
+            grants = "".join(ESO_GRANT.format(i=i + 1, num=g["grant_num"], fmv=money2(g["fmv"]), shares="{:,}".format(g["released"]), sale_price=money2(g["sale_price"]),
                                               fee=fee2(g["grant_fee"])) for i, g in enumerate(gs))
             text = ESO_TMPL.format(company=COMPANY[b["sym"]].replace(",", ""), sym=b["sym"], ex_type=b["ex_type"], sold="{:,}".format(gs[-1]["sold"]),
                                    grants=grants, date_slash=b["date"].strftime("%m/%d/%Y"))
@@ -373,6 +378,9 @@ def render_files(rng, sc):
             split = comp.rsplit(" ", 1)
             sold_line = "\nShares Sold to Cover Taxes %s\n" % f4(b["sold"]) if b["sold"] else ""
             sale_line = "Sale Price for Shares Sold to Cover Taxes $%s\n" % f6(b["sale_price"]) if b["sold"] else ""
+            if b.get("price_with_comma") and b["sold"]:
+                sp = f6(b["sale_price"] + 1000)
+                sale_line = "Sale Price for Shares Sold to Cover Taxes $%s,%s\n" % (sp[0], sp[1:])
             tax_line = " Total Taxes Collected at purchase ($2,200.21) Fees ($%s)\nValue Of Shares Sold $2,500.0000\nAmount in Excess of Tax Due $202.0700\n" % fee2(b["fee"]) if b["sold"] else ""
             text = ESPP_TMPL.format(company=comp, company_split=split[0] + "\n" + split[1], sym=b["sym"], date_dash=dd, purchased=f4(b["released"]),
                                     fmv=f6(b["fmv"]), sold_line=sold_line, sale_line=sale_line, tax_line=tax_line)
@@ -467,6 +475,9 @@ def judge(sc, res):
     benefits, trades = sc["benefits"], sc["trades"]
     feasible = feasible_assignment(benefits, trades)
     if not res.get("ok"):
+        if (any(b.get("price_with_comma") for b in benefits) and not res.get("out", "").strip()
+                and ("sell-to-cover fields" in str(res.get("err")) or "Average reported sale price: None" in str(res.get("err")))):
+            return None      # the four-figure price layout is reported as unreadable, with the benefit named: refused, not guessed
         if feasible and sc["consistent_by_construction"]:
             return {"what": "a consistent set of confirmations is rejected", "err": res.get("err")}
         if not (res.get("err") or "").strip():
